@@ -289,3 +289,39 @@ def depends_on(rule, F, tier, deps, what):
             rule.fail(("depends", rid, "missing"), "%s relies on %s, which did not run" % (what, rid))
         elif res[rid]:
             rule.fail(("depends", rid), "%s relies on %s, which reported %s" % (what, rid, res[rid][0]))
+
+
+def with_helpers(F, fn, depth=2):
+    """HIR roots of `fn` and of the non-exported workspace functions it calls (transitively, bounded): a presence test
+    ("the function consults X") must not depend on whether the code sits in the function or in a private helper of it."""
+    out, seen, todo = [], set(), [(fn, 0)]
+    while todo:
+        f, d = todo.pop()
+        if f in seen:
+            continue
+        seen.add(f)
+        h = F.hir(f)
+        if h is None:
+            continue
+        out.append((f, H.root(h)))
+        if d >= depth:
+            continue
+        for g in H.called_fns(H.root(h)):
+            meta = F.fns.get(g)
+            if meta is not None and not meta.get("exported") and g.split("::")[0] == fn.split("::")[0]:
+                todo.append((g, d + 1))
+    return out
+
+
+def called_fns_deep(F, fn, depth=2):
+    out = set()
+    for _, r in with_helpers(F, fn, depth):
+        out |= H.called_fns(r)
+    return out
+
+
+def literals_deep(F, fn, depth=2):
+    out = []
+    for _, r in with_helpers(F, fn, depth):
+        out += H.literals(r)
+    return out
